@@ -518,7 +518,7 @@ class History:
                 scg = snap["scopes"].get(gs)
                 if scg and scg["active"] and not ref_eff_cancelled(snap, gs) and gs not in self._f23_reported:
                     self._f23_reported.add(gs)
-                    self.v("C02", f"step {i}: a child of the group with scope {gs} has failed, but the scope is no longer effectively cancelled (cancelled={scg['cancelled']}, shield={scg['shield']}): the remaining tasks and the body are not being cancelled")
+                    self.v("C02", f"step {i}: a child or the body of the group with scope {gs} has failed, but the scope is no longer effectively cancelled (cancelled={scg['cancelled']}, shield={scg['shield']}): the remaining tasks and the body are not being cancelled")
             if self.real:
                 self.check_not_stuck(prev, snap, op, i)
             else:
@@ -930,6 +930,11 @@ def scheck(pid: str, tier: str, extra_assumptions=None, known=None) -> int:
             continue                      # a history recorded on a real loop: replayed in the real-loop part only
         data_ = json.loads(f.read_text())
         w = sgen.adaptive(data_["adaptive"]) if data_.get("adaptive") else sgen.replay(data_["ops"], tolerant=True)
+        if data_.get("adaptive") and not w.incomplete:
+            n_opt = sum(1 for x in data_["adaptive"] if x[0])
+            n_req = len(data_["adaptive"]) - n_opt
+            if n_opt and len(w.ops) // 4 <= n_req:
+                w.incomplete = (len(w.ops) // 4, "adaptive scenario: every optional wake-up was skipped")
         runs.append(w)
         n_corpus += 1
         if w.incomplete:
@@ -1042,7 +1047,7 @@ def scheck(pid: str, tier: str, extra_assumptions=None, known=None) -> int:
     if pid == "C02":
         import deep_directed                 # an error below 3500 nested groups (outside the model, F52)
         eager_hits += deep_directed.run_c02()
-        real_flags["deep_nesting_scenarios"] = 1
+        real_flags["deep_nesting_scenarios"] = 2
     if pid in ("C02", "C04"):
         import native_directed               # asyncio.gather() / awaited native tasks inside a scope (outside the model)
         eager_hits += native_directed.run_all(pid)
